@@ -172,7 +172,8 @@ fn oracle(m: &RLib, ctx: &mut Ctx) -> Result<(), String> {
                 return Err(format!("cell {}: instance angle came back as {}", c.name, a));
             }
             let t = i.cell.read().map_err(|_| "lock")?.name.clone();
-            *got_i.entry((t, (i.loc.x as i64, i.loc.y as i64), i.reflect_vert, a as i64)).or_default() += 1;
+            // (an angle is an orientation: whole turns more or less are the same placement)
+            *got_i.entry((t, (i.loc.x as i64, i.loc.y as i64), i.reflect_vert, (a as i64).rem_euclid(360))).or_default() += 1;
         }
         if want_i != got_i {
             return Err(format!("cell {}: instances (target, location, reflection, angle) {:?} came back as {:?}", c.name, want_i, got_i));
@@ -201,8 +202,8 @@ fn deep_case(src: &mut Src, ctx: &mut Ctx) -> Result<(), String> {
     oracle(&m, ctx)
 }
 fn run(run: &mut Run) {
-    run.rule("G-rawlib layout libraries: 1-5 cells forming a DAG in shuffled listing order, instances in all eight orientations (angle None vs Some(0)), rectangles with any corner order, histogram / U-shaped / 45-degree / star polygons, Manhattan paths, nets in mixed case (now and then the empty name), 1-5 layers with Drawing/Label/Pin/Obstruction/Other/Named purposes and arbitrary numbers, all four units; own shapes of a cell in disjoint windows. Oracle: export succeeds, exported paths and labels checked directly on the GDSII (exact geometry), re-import equal per cell as multisets. Non-trivial = named polygon with bounding-box centre outside, a path, or a non-identity instance; distinct by hash of the model.");
-    run.assume("cell order, rectangle corner order, rectangle-shaped polygons coming back as rectangles, None vs Some(0) angles, annotations (not exported) and instance names are not compared");
+    run.rule("G-rawlib layout libraries: 1-5 cells forming a DAG in shuffled listing order, instances in all eight orientations (angle None vs Some(0); now and then spelled with whole turns added or taken away, -90 for 270), rectangles with any corner order, histogram / U-shaped / 45-degree / star polygons, Manhattan paths, nets in mixed case (now and then the empty name), 1-5 layers with Drawing/Label/Pin/Obstruction/Other/Named purposes and arbitrary numbers, all four units; own shapes of a cell in disjoint windows. Oracle: export succeeds, exported paths and labels checked directly on the GDSII (exact geometry), re-import equal per cell as multisets. Non-trivial = named polygon with bounding-box centre outside, a path, or a non-identity instance; distinct by hash of the model.");
+    run.assume("cell order, rectangle corner order, rectangle-shaped polygons coming back as rectangles, None vs Some(0) angles, whole turns of an angle, annotations (not exported) and instance names are not compared");
     run.assume("'No valid label location' for a library containing a named non-rectilinear polygon is the documented refusal");
     run.min_nontrivial = 200;
     run.explore("roundtrip", run.tier.pick(400_000, 5_000_000), 900, &main_case);
